@@ -276,7 +276,21 @@ func c18Docs(r vlib.Rnd, n int) []any {
 	var out []any
 	for len(out) < n {
 		var src []byte
-		if genModelDoc != nil && vlib.Chance(r, 1, 2) {
+		if vlib.Chance(r, 1, 4) {
+			// an accepted document of the allOf families: inheritance is resolved lazily, at the first serialisation
+			for try := 0; try < 6 && src == nil; try++ {
+				b := genAllOfFamily(r)
+				if bld := vlib.Build(vlib.SingleFile(b)); bld.Out.OK() {
+					src = b
+					bld.Close()
+				} else {
+					bld.Close()
+				}
+			}
+			if src == nil {
+				continue
+			}
+		} else if genModelDoc != nil && vlib.Chance(r, 1, 2) {
 			src = genModelDoc(r).RootBytes()
 		} else {
 			p := vlib.Pick(r, pool)
